@@ -381,6 +381,37 @@ def wl_tz_switch(ctx, P, tz):
         TM.set_process_tz(old)
 
 
+def wl_tzinfos_ambiguous(ctx, P, tz):
+    """a zone supplied through tzinfos at a wall time that occurs twice: the abbreviation in the text picks the reading
+    whose name it is (EST -> the later, EDT -> the earlier); a name the zone never reports (an alias such as 'ET'), or no
+    disambiguation at all, leaves the plain attachment naive.replace(tzinfo=zone)"""
+    zone = tz.tzstr('EST5EDT,M3.2.0,M11.1.0')
+    ny = tz.gettz('America/New_York')
+    for z, zlabel in ((zone, 'tzstr'), (ny, 'tzfile')):
+        if z is None:
+            continue
+        for wall, ambiguous in ((D.datetime(2011, 11, 6, 1, 30), True), (D.datetime(2011, 11, 6, 3, 30), False), (D.datetime(2011, 7, 6, 1, 30), False)):
+            for name, fold in (('EST', 1), ('EDT', 0), ('ET', 0), ('XYZ', 0)):
+                if not ambiguous and name in ('EST', 'EDT') and name != wall.replace(tzinfo=z).tzname():
+                    continue          # an abbreviation that contradicts an unambiguous time is outside the property
+                for form, tzinfos in (('dict', {name: z}), ('callable', lambda n, off, z=z: z), ('dict-str', {name: 'EST5EDT,M3.2.0,M11.1.0'})):
+                    if form == 'dict-str' and zlabel == 'tzfile':
+                        continue
+                    text = wall.strftime('%Y-%m-%d %H:%M:%S ') + name
+                    r = call(P.parse, text, tzinfos=tzinfos)
+                    ctx.ev()
+                    ctx.count('zone_tzinfos-ambiguous')
+                    ctx.distinct('zone|tzinfos-ambiguous|%s|%s|%s|%s' % (zlabel, name, form, ambiguous))
+                    exp = wall.replace(tzinfo=z, fold=fold if ambiguous else 0)
+                    case = {'workload': 'zone', 'branch': 'tzinfos-ambiguous', 'text': text, 'tzinfos': form, 'zone': zlabel,
+                            'expected_offset': exp.utcoffset().total_seconds(), 'expected_fold': exp.fold}
+                    if r[0] != 'ok':
+                        ctx.violation('zone-raised', case, repr(r[1]))
+                    elif r[1].replace(tzinfo=None) != wall or r[1].utcoffset() != exp.utcoffset() or (ambiguous and r[1].fold != exp.fold):
+                        ctx.violation('zone-resolution', case, 'got %r fold=%d offset %s; expected fold=%d offset %s'
+                                      % (r[1], r[1].fold, r[1].utcoffset(), exp.fold, exp.utcoffset()))
+
+
 def in_order_substrings(parts, text):
     # the lexer reports every whitespace character as ' ' and drops NULs: compare modulo that normalisation
     text = ''.join(' ' if c.isspace() else c for c in text if c != '\x00')
@@ -553,6 +584,7 @@ def run(ctx):
             ctx.count('directed_default')
             if r[0] != 'ok' or r[1] != exp:
                 ctx.violation('default-fill', {'workload': 'default', 'text': text, 'default': repr(default), 'expected': repr(exp)}, repr(r[1]))
+        wl_tzinfos_ambiguous(ctx, P, tz)
         wl_tz_switch(ctx, P, tz)
     finally:
         uninstall()
